@@ -700,3 +700,36 @@ reg(Prop("C10", "Repetition count equals true recurrences of the position in the
          assumptions=["no_collision: different position keys of one history have different Zobrist hashes (measured every run)",
                       "the root does not carry an en-passant square without a legal en-passant capture (known finding fen-ep-flag)"],
          extra=_c10_extra, classify=_c10_classify, design_ref="5/C10"))
+
+reg(Prop("C20", "Each training position is processed exactly once per tuning epoch", "Properties/C20.v",
+         [StreamCfg("c20_shuffle", 1200, 30000, judge="judge_c20_shuffle",
+                    rule="shuffleIndex for every index of every n <= 160 (thorough 1100) under small, negative and random "
+                         "64-bit epochs; the whole Feistel permutation for 0..9 bits; n = 2^k, 2^k+-1 for k <= 63 and random n of "
+                         "every magnitude with sampled and adjacent indices; feistel for widths 0..64; roundFunc; "
+                         "non-trivial = n > 1; distinct by input tuple"),
+          StreamCfg("c20_file", 900, 12000, judge="judge_c20_file",
+                    rule="files of 0..240 lines (lengths 1..160, near-4096 share), blank lines at start/middle/end, last line "
+                         "with/without newline, binary and tiny alphabets (duplicate lines), written to disk and read through "
+                         "NewChunker/Open/Read: one window [start,end), the tuner's Batches/Chunks schedule, or fixed-size "
+                         "windows; refill buffer sizes from max-line-length upward when the hook epd/export_verif_c20.go is "
+                         "present (else backingBytes); non-trivial = at least two non-blank lines; distinct by input"),
+          StreamCfg("c20_batch", 3000, 60000, judge="judge_c20_batch",
+                    rule="Batches(n) for boundary and random n < 60 batches; Chunks of batch-shaped, chunk-multiple+-1 and "
+                         "arbitrary (also empty/inverted/over-long) ranges; non-trivial = non-empty range"),
+          StreamCfg("c20_big", 2, 8, judge="judge_c20_file", model=False,
+                    rule="files of more than NumLinesInBatch (and more than one chunk of) short lines read through the "
+                         "tuner's own Batches/Chunks schedule; implementation judged by the specification only")],
+         trusted=["hooks tools/tuner/epd/export_verif.go (VerifShuffleIndex/VerifFeistel/VerifRoundFunc/VerifBackingBytes) and, "
+                  "optional, epd/export_verif_c20.go (VerifSetBacking: smaller refill buffer)",
+                  "translator piece harness/cmd/gen/tunerconsts.go reads the literals inside feistel/roundFunc from the source "
+                  "text (go/parser) and the batch constants through the compiler",
+                  "modelled, not verified: os.File.ReadAt, bufio.Reader.ReadSlice (4096-byte reader: ErrBufferFull / io.EOF "
+                  "behaviour as documented), slices.SortFunc (any correct sort: keys are distinct), iter.Seq plumbing",
+                  "Chunk.Read returns a slice aliasing the refill buffer; the theorems are about the bytes at the time of the "
+                  "return (client.go consumes the line before the next Read)"],
+         assumptions=["file in the documented format for the exactly-once statement: every line newline-terminated and shorter "
+                      "than the 4096-byte line reader (NewChunker fails otherwise; an unterminated last line is dropped - stated "
+                      "and proved as such)",
+                      "refill buffer at least as long as the longest line (backingBytes = 32 MiB in production)",
+                      "1 <= line count < 2^63 (Go int), positive batch constants"],
+         design_ref="5/C20"))
